@@ -98,8 +98,12 @@ def run_check(prop, tier, seed, replay=None):
         mod = 'PV.' + prop_vo[len('theories/'):-3].replace('/', '.')
         with lib.BuildLock():
             try:
-                rc, out, err = lib.sh(['timeout', '1500', 'coqchk', '-silent', '-o', '-Q', 'theories', 'PV', mod],
-                                      cwd=lib.ROCQ, timeout=1600)
+                # coqchk has no VM: it re-checks vm_compute proofs by ordinary conversion, so a cone with large computed
+                # examples (C03: whole 8 KiB regions) takes 35-45 minutes on an idle core, more on a loaded machine.  The
+                # limit is generous because running out of time here reads as "no longer shown to hold".
+                lim = int(os.environ.get('VERIF_COQCHK_TIMEOUT', '14400'))
+                rc, out, err = lib.sh(['timeout', str(lim), 'coqchk', '-silent', '-o', '-Q', 'theories', 'PV', mod],
+                                      cwd=lib.ROCQ, timeout=lim + 100)
             except Exception as e:  # noqa
                 rc, out, err = 124, '', 'coqchk did not finish: %r' % (e,)
         txt = out + err
